@@ -27,7 +27,8 @@ RULE = ("seeded multi-append histories (3-8 steps) on local / CAS-S3 through FRE
         "scan per column succeed and equal the reference multiset normalised to the declared column type; a value the "
         "declared type cannot represent must be rejected. Distinct = (backend, sequence of (handle freshness, schema "
         "variant, row classes, outcome)); non-trivial = at least one accepted and one rejected append, or a non-"
-        "identical schema argument was accepted. The value-class dimension is sampled, not enumerated.")
+        "identical schema argument was accepted. The value-class dimension is sampled, not enumerated; long strings (cut character at "
+        "index 16 / 32 / 36 / 64 / 200: non-BMP, U+10FFFF, U+FFFF) are probed with ==, >=, >, in after they were accepted.")
 ASSUMPTIONS = common.BASE_ASSUMPTIONS + [
     "enumerating column-type x value-class combinations is input generation, which this technique does not add to; only "
     "a fixed adversarial pool is sampled inside the histories",
